@@ -449,7 +449,29 @@ func ruleC07Exhaust(c *Ctx, r *Rep) {
 			continue
 		}
 		tv, ok := info.Types[rs.Results[1]]
-		if !ok || tv.Value == nil || tv.Value.String() != "false" {
+		if ok && tv.Value != nil && tv.Value.String() == "true" {
+			continue // a value or an error is delivered
+		}
+		if !ok || tv.Value == nil {
+			// a computed second result (`return err, err != nil`): it is false on some path, and that path has no
+			// statement of its own in which pc could be parked
+			n++
+			parked := false
+			if list, idx := stmtListOf(vm.Next.Body, rs); idx > 0 {
+				// accepted: the statement before is `if err == nil { pc = len(env.codes) }`
+				if ifs, ok := list[idx-1].(*ast.IfStmt); ok && ifs.Else == nil && strings.Contains(c.Src(ifs.Cond), "err == nil") {
+					for _, st := range ifs.Body.List {
+						if as, ok := st.(*ast.AssignStmt); ok && len(as.Lhs) == 1 && len(as.Rhs) == 1 && vm.isVar(as.Lhs[0], "pc") && isLenEnvCodes(info, as.Rhs[0]) {
+							parked = true
+						}
+					}
+				}
+			}
+			if parked {
+				r.OK("return-false", rs.Pos(), "`%s`: pc is parked under `err == nil` immediately before", c.Src(rs))
+				continue
+			}
+			r.Bad("return-false", rs.Pos(), "`%s` reports exhaustion through a computed result: on the path where it is false nothing assigns pc = len(env.codes), so a further call re-enters the handler that backtracked last (`[] | .[]`, Next twice after false → index out of range)", c.Src(rs))
 			continue
 		}
 		n++
